@@ -350,6 +350,9 @@ pub fn c16_pins() -> Vec<C16Pin> {
         C16Pin { name: "function_like_macro_cycle", src: || "#define G(x) F(x)\n#define F(x) G(x)\nunsigned char a;\nvoid main() { a = F(1); }\n".into(), argv_extra: &[] },
         C16Pin { name: "recursive_function", src: || "unsigned char n;\nvoid down() { if (n) { n--; down(); } }\nvoid ping();\nvoid pong() { if (n) { n--; ping(); } }\nvoid ping() { pong(); }\nvoid main() { down(); ping(); }\n".into(), argv_extra: &[] },
         C16Pin { name: "missing_closing_brace_at_eof", src: || "unsigned char a;\nvoid main() {\n  a = 1;\n".into(), argv_extra: &[] },
+        C16Pin { name: "if_continue_in_switch_in_dowhile", src: || "unsigned char a, c;\nvoid main() { do { switch (a) { case 1: if (c) continue; c++; break; } a++; } while (a < 3); }\n".into(), argv_extra: &[] },
+        C16Pin { name: "if_continue_in_switch_in_while_and_for", src: || "unsigned char a, c;\nvoid main() { while (a < 3) { a++; switch (a) { case 1: if (c) continue; } } for (a = 0; a != 2; a++) { switch (c) { default: if (a) continue; c++; } } }\n".into(), argv_extra: &[] },
+        C16Pin { name: "undef_of_unknown_name", src: || "#define WIDTH 4\n#undef HEIGHT\n#undef WIDTH\n#undef WIDTH\nunsigned char a;\nvoid main() { a = 1; }\n".into(), argv_extra: &[] },
         C16Pin { name: "huge_array_size", src: || "short sa0[2147483647];\nunsigned char c[-3];\nvoid main() { sa0[1] = 2; }\n".into(), argv_extra: &[] },
         C16Pin { name: "huge_literal", src: || "unsigned char a;\nvoid main() { a = 99999999999; }\n".into(), argv_extra: &[] },
         C16Pin { name: "double_minus_literal", src: || "void main() { csleep(--5); }\n".into(), argv_extra: &[] },
